@@ -56,8 +56,11 @@ structure St where
   startOnMoof : Bool := false
 deriving Repr
 
-/-- the sidx loop: does a segment with index `segIdx` start at `pos`? (a sidx containing a reference_type 1 entry is
-    skipped from that entry on, as the `continue sidxLoop` does) -/
+/-- the sidx loop: does a segment with index `segIdx` start at `pos`? `idx` is declared before the loop over `f.Sidxs`:
+    it numbers the references of ALL top-level sidx boxes consecutively (it is not reset per box), while `startPos`
+    restarts at each box's own anchor point. A sidx containing a reference_type 1 entry is skipped from that entry
+    on, as the `continue sidxLoop` does (the references counted so far stay counted).
+    Characterised by `C12.multi_sidx_delimits`. -/
 def sidxStart (sidxs : List Sidx) (pos segIdx : Nat) : Bool :=
   let rec refsLoop : List (Nat × Nat) → Nat → Nat → Option Bool × Nat   -- (found?, idx)
     | [], _, idx => (none, idx)
